@@ -323,14 +323,42 @@ def pin_scheduler(seed: int) -> None:
     tr._r.seed(seed)
 
 
+class SpinWatch(trio.abc.Instrument):
+    """Counts task steps taken without virtual time moving: a task that spins through
+    checkpoints would otherwise keep the autojump clock from ever advancing."""
+
+    LIMIT = 1_500_000
+
+    def __init__(self) -> None:
+        self.steps = 0
+        self.at = -1.0
+        self.scope: Optional[trio.CancelScope] = None
+        self.tripped: Optional[str] = None
+
+    def before_task_step(self, task: Any) -> None:
+        now = trio.current_time()
+        if now != self.at:
+            self.at = now
+            self.steps = 0
+        self.steps += 1
+        if self.steps > self.LIMIT and self.tripped is None:
+            self.tripped = (f"{self.steps} task steps at virtual time {now} "
+                            f"(last task {task.name})")
+            if self.scope is not None:
+                self.scope.cancel()
+
+
 def run_trio(scenario: Callable[[TrioEnv], Awaitable[Any]], cfg: Dict[str, Any],
              app_factory: Callable[[Any], Any], state: Optional[dict] = None,
              max_requests: Optional[int] = None, sched: int = 0) -> Any:
     result: Dict[str, Any] = {}
     pin_scheduler(sched)
 
+    watch = SpinWatch()
+
     async def main() -> None:
         async with trio.open_nursery() as nursery:
+            watch.scope = nursery.cancel_scope
             env = TrioEnv(nursery, cfg, state, max_requests)
             env.app = app_factory(env)
             result["env"] = env
@@ -345,7 +373,9 @@ def run_trio(scenario: Callable[[TrioEnv], Awaitable[Any]], cfg: Dict[str, Any],
                 nursery.cancel_scope.cancel()
 
     try:
-        trio.run(main, clock=trio.testing.MockClock(autojump_threshold=0))
+        trio.run(main, clock=trio.testing.MockClock(autojump_threshold=0), instruments=[watch])
+        if watch.tripped:
+            result["spin"] = watch.tripped
     except BaseExceptionGroup as group:
         # an exception raised by the scenario (e.g. an oracle's Violation) arrives wrapped by
         # the nursery: hand the single underlying exception on
